@@ -54,16 +54,21 @@ def handler(case):
     return dict(ops=ops0, impl=impl0, viols=viols[:3], nontrivial=("exact", tuple(sig), len(impl0), any(x > 0 for x in base["outage"])), tag="exact")
 
 
-def seeded_run(case, unit):
+def seeded_run(case, unit, reuse=None):
     from relsad.simulation import Simulation
     from relsad.Time import Time, TimeStamp, TimeUnit
     from relsad.StatDist import StatDist, StatDistType, UniformParameters
-    spec = dict(case["spec"], exact=False, nprof=case["n_inc"])
-    ps = net.build(spec)
-    for l in ps.lines:
-        l.fail_rate_per_year = case["rate"]
-        l.repair_time_dist = StatDist(StatDistType.UNIFORM_FLOAT, UniformParameters(min_val=2.0, max_val=3.0))
-    sim = Simulation(ps, random_seed=case["seed"])
+    if reuse is not None and reuse.get("sim") is not None:
+        ps, sim = reuse["ps"], reuse["sim"]           # the same Simulation object as the previous run (Monte Carlo: reset in between)
+    else:
+        spec = dict(case["spec"], exact=False, nprof=case["n_inc"])
+        ps = net.build(spec)
+        for l in ps.lines:
+            l.fail_rate_per_year = case["rate"]
+            l.repair_time_dist = StatDist(StatDistType.UNIFORM_FLOAT, UniformParameters(min_val=2.0, max_val=3.0))
+        sim = Simulation(ps, random_seed=case["seed"])
+        if reuse is not None:
+            reuse["ps"], reuse["sim"] = ps, sim
     dt_h = F(case["dt"])
     su = case.get("step_unit") or unit           # the step may be written in another unit than the reporting unit
     step = Time(float(dt_h * 3600 / c17.FACT[su]), c17.U(su))
@@ -89,9 +94,10 @@ def seeded_run(case, unit):
 
 def seeded_case(case):
     viols = []
-    base = seeded_run(case, 3)
+    reuse = {} if case.get("reuse") else None
+    base = seeded_run(case, 3, reuse)
     for u in case["units"]:
-        r = seeded_run(case, u)
+        r = seeded_run(case, u, reuse)
         if len(r["fails"]) != len(base["fails"]):
             viols.append(("unit.horizon", f"reporting unit {UNITS[u]}: {len(r['fails'])} increments simulated, HOUR: {len(base['fails'])}"))
             continue
@@ -150,6 +156,10 @@ def gen(rng, ne, ns):
             cases[-1]["entry"] = "mc"; cases[-1]["step_unit"] = rng.choice([3, 2])
         elif j % 3 == 1:
             cases[-1]["entry"] = "seq"; cases[-1]["step_unit"] = rng.choice([3, 2])
+        if j % 3 == 2:
+            # the same Simulation object runs the Monte Carlo entry point once per unit (reset between iterations): nothing of the
+            # first run - its time grid in particular - may leak into the second
+            cases[-1]["entry"] = "mc"; cases[-1]["reuse"] = True; cases[-1]["step_unit"] = None
     return cases
 
 
